@@ -5,7 +5,7 @@ from common import Report
 
 MANIFEST = dict(
     technique='Coq proof that every realizable call stack is bounded (generic theorem over the static call graph + guard set regenerated from SSA each run, instance by vm_compute) + nesting drivers and limit boundaries on the implementation',
-    text="Theorem stack_depth_bounded: for every path in the parser's static call graph on which depth-guard frames have callees only while the counter is within the limit, the number of frames is at most (MaxRecursionDepth+2)*(max rank+1), independent of the input; proved generically and instantiated on the call graph, guard set (increment + deferred decrement + dominating limit check recognised on SSA) and rank witness regenerated from the current source, the acyclicity hypothesis discharged by complete evaluation. 45+ self-embedding productions are driven to depths around the limit and far beyond in a child process on a reused and a fresh parser (depth-counter leaks, history dependence, crashes); the size limit is proved for every limit value on the tokenizer model (reject above with E1006, no effect at or below), the token bound likewise; both limits are also checked exactly at and one past their boundaries through each entry point of the implementation.",
+    text="Theorem stack_depth_bounded: for every path in the parser's static call graph on which depth-guard frames have callees only while the counter is within the limit, the number of frames is at most (MaxRecursionDepth+2)*(max rank+1), independent of the input; proved generically and instantiated on the call graph, guard set (recognised semantically on SSA: the counter is found by its role, a function is a guard when on every path it takes every step of the counter back and every call that can reach a cycle happens with the counter stepped once, the decrement deferred and the counter within the limit; helper methods are summarised into their callers) and rank witness regenerated from the current source, the acyclicity hypothesis discharged by complete evaluation. 45+ self-embedding productions are driven to depths around the limit and far beyond in a child process on a reused and a fresh parser (depth-counter leaks, history dependence, crashes); the size limit is proved for every limit value on the tokenizer model (reject above with E1006, no effect at or below), the token bound likewise; both limits are also checked exactly at and one past their boundaries through each entry point of the implementation.",
     note=common.BASE_NOTE + "Static call graph complete for direct calls (dynamic call sites listed in evidence); frame sizes are the compiler's; the size-limit clause is proved on the tokenizer model (tied by the C04 byte-level correspondence); the token-limit clause is proved as an equivalence for every text of the reference lexical grammar (C02_token_limit_iff via the lex_faithful development) and additionally explored at the boundary on the implementation.",
     design='6/C02')
 
@@ -100,6 +100,11 @@ def run(tier):
     rp.cov["call_graph"] = {n: {"functions": len(t["funcs"]), "edges": len(t["edges"]), "guards": [t["funcs"][g] for g in t["guards"]],
                                 "max_rank": max(t["rank"].values()) if t["rank"] else 0, "dynamic_call_sites": t["dynamic"]} for n, t in cgs.items()}
     rp.cov["stack_bound_frames"] = (limit + 2) * (max(p["rank"].values()) + 1)
+    rp.cov["depth_guard_recogniser"] = {"counter_field": p.get("depth_field"), "helpers_inlined": p.get("depth_helpers"),
+                                        "guard_bounds": {p["funcs"][g]: l for g, l in (p.get("guard_limits") or {}).items()},
+                                        "rule": "semantic over SSA (tools/gotables/depthguard.go): counter found by role; per function a forward data flow (net steps, registered deferred decrements, "
+                                                "established bound per branch edge, helper summaries up to 2 levels); guard = every return balanced and every call that can reach a cycle "
+                                                "happens with the counter stepped once, its decrement deferred and counter <= bound <= MaxRecursionDepth"}
 
     # ---- nesting drivers on the implementation (child process; one long-lived parser + fresh parser per input)
     depths = [5, 30, limit - 1, limit, limit + 1, limit + 2, 2 * limit + 5, 1000, 20000]
@@ -197,7 +202,9 @@ def run(tier):
         found = any("depth_leak" in v or "history_dependent" in v for v in rp.violations)
         rp.violation({"kind": "table-gap", "theorem": "Inst_C02.parser_depth_bookkeeping", "depth_inc": [p["funcs"][i] for i in p["depth_inc"]],
                       "guards": [p["funcs"][i] for i in p["guards"]],
-                      "explanation": "a function increments the depth counter without the full guard pattern (increment, deferred decrement after it, limit check dominating every call)"},
+                      "balanced": [p["funcs"][i] for i in p["depth_defer_dec"]], "counter_field": p.get("depth_field"), "helpers_inlined": p.get("depth_helpers"),
+                      "explanation": "a function steps the depth counter (directly or through a helper) without being a complete guard: on some return path a step is not taken back, "
+                                     "or a call that can reach a cycle of the call graph happens before the counter is stepped, without the decrement being deferred, or outside the within-limit side of the limit check"},
                      "depth_bookkeeping", no_input=not found)
     if not ok_inst and not new_cycles and book_ok:
         rp.violation({"kind": "proof", "theorem": "Inst_C02", "log": logs["inst"][-3000:]}, "inst_c02", no_input=True)
